@@ -25,7 +25,7 @@ use rusty_variant::{Variant, VariantError};
 // ---- exact rationals of floats ------------------------------------------------------------------
 
 /// `x = num / den` exactly (`den` a power of two), or `None` when it cannot be written with moderate
-/// numbers (not finite, above 2^100 or finer than 2^-100).
+/// numbers (not finite, above 2^101 or finer than 2^-100).
 fn rat_of_f64(x: f64) -> Option<(i128, u128)> {
     if !x.is_finite() {
         return None;
@@ -43,7 +43,8 @@ fn rat_of_f64(x: f64) -> Option<(i128, u128)> {
         e += 1;
     }
     if e >= 0 {
-        if e > 46 {
+        // up to 2^101 (the model's exact domain ends at 2^100)
+        if e + (128 - m.leading_zeros() as i64) > 102 {
             return None;
         }
         let n = (m << e) as i128;
@@ -224,7 +225,60 @@ fn candidates() -> Vec<f64> {
     v.extend_from_slice(&[2f64.powi(-17), 2f64.powi(-16), 2f64.powi(-14), 2f64.powi(-13), 3.0 + 2f64.powi(-14), 3.0 - 2f64.powi(-17)]);
     // around the single / double precision limits
     v.extend_from_slice(&[16777215.0, 16777216.0, 16777217.0, 9007199254740992.0, 4503599627370496.5]);
+    // whole numbers around the end of the 64-bit integers and of `fit_to_type`'s `< 9.0e18` guard
+    // (9.0e18 as f64, 9.0e18 as f32 and its f32 predecessor), and far beyond (1E+30, 2^99)
+    v.extend_from_slice(&[
+        4611686018427387904.0,
+        9.0e18 - 1024.0,
+        9.0e18,
+        8999999652602314752.0,
+        9000000202358128640.0,
+        9223372036854775808.0,
+        -9223372036854775808.0,
+        18446744073709551616.0,
+        1e30,
+        -1e30,
+        633825300114114700748351602688.0,
+    ]);
     v
+}
+
+/// Whole numbers built exactly: small integers times powers of two (up to 2^100) and of ten (up to 1E+22, the
+/// largest exact power of ten, times powers of two up to 1E+30).
+fn big_wholes() -> Vec<f64> {
+    let mut v = vec![];
+    for k in [1.0f64, 3.0, 5.0, 7.0, 1023.0] {
+        for j in (28..=98).step_by(2) {
+            let x = k * 2f64.powi(j);
+            if x < 2f64.powi(100) {
+                v.push(x);
+                v.push(-x);
+            }
+        }
+    }
+    for j in 9..=22 {
+        let p = 10f64.powi(j); // exact up to 1E+22
+        for k in [1.0f64, 2.0, 3.0, 256.0, 100000000.0] {
+            let x = p * k;
+            if x < 1.0e30 * 1.0000001 && (x / p) == k {
+                v.push(x);
+                v.push(-x);
+            }
+        }
+    }
+    v
+}
+
+/// What `fit_to_type` must make of the exact whole number `n` (property: the value is kept, the tag is the
+/// smallest whole-number type that holds it, DOUBLE beyond the LONG range).
+fn fit_reference(n: f64) -> String {
+    if (-32768.0..=32767.0).contains(&n) {
+        format!("(ok (int {}))", n as i64)
+    } else if (-2147483648.0..=2147483647.0).contains(&n) {
+        format!("(ok (long {}))", n as i64)
+    } else {
+        format!("(ok {})", show_float("dbl", n))
+    }
 }
 
 fn values_of(q: TypeQualifier, cands: &[f64]) -> Vec<Variant> {
@@ -811,6 +865,51 @@ fn main() {
         compared, inexact_discarded
     ));
 
+    // ---- 2b. whole quotients far beyond the 64-bit integers (no model needed) ------------------------------
+    // x / 1 = x, x / 2 = x/2 (x even), (x * 2) / 2 = x, exactly, with the tag fit_to_type must choose
+    let wholes = big_wholes();
+    let mut n_whole = 0u64;
+    for &x in &wholes {
+        let mut carriers: Vec<(&str, Variant)> = vec![("dbl", Variant::VDouble(x))];
+        if (x as f32) as f64 == x {
+            carriers.push(("sgl", Variant::VSingle(x as f32)));
+        }
+        for (cn, xv) in carriers {
+            let mut cases: Vec<(String, Result<Variant, VariantError>, f64)> = vec![];
+            cases.push((format!("{} / (int 1)", show_variant(&xv)), xv.clone().divide(Variant::VInteger(1)), x));
+            cases.push((format!("{} / (dbl 1 1)", show_variant(&xv)), xv.clone().divide(Variant::VDouble(1.0)), x));
+            cases.push((format!("{} / (int 2)", show_variant(&xv)), xv.clone().divide(Variant::VInteger(2)), x / 2.0));
+            if cn == "dbl" || ((2.0 * x) as f32) as f64 == 2.0 * x {
+                let doubled = xv.clone().multiply(Variant::VInteger(2));
+                if let Ok(d) = doubled {
+                    cases.push((format!("({} * (int 2)) / (int 2)", show_variant(&xv)), d.divide(Variant::VInteger(2)), x));
+                }
+            }
+            for (input, got, want) in cases {
+                n_whole += 1;
+                rep.case(Some(format!("whole {}", input)));
+                rep.bump(&format!("whole-quotient.{}", cn));
+                let got_s = show_res(&got);
+                let expected = fit_reference(want);
+                if got_s != expected {
+                    rep.fail(Failure {
+                        kind: Kind::ImplVsProperty,
+                        signature: format!("fit:whole-quotient:{}", cn),
+                        input,
+                        implementation: got_s,
+                        expected,
+                        note: "a whole quotient keeps its value; beyond the LONG range it is a DOUBLE holding that value".into(),
+                    });
+                }
+            }
+        }
+    }
+    rep.exhaustive_parts.push(format!(
+        "x / 1, x / 2, (x * 2) / 2 for {} whole numbers k * 2^j (j <= 98) and k * 10^j (up to 1E+30) as DOUBLE and, where representable, SINGLE: {} quotients compared with the exact value and the tag fit_to_type must choose",
+        wholes.len(),
+        n_whole
+    ));
+
     // ---- 3. programs -------------------------------------------------------------------------------
     let mut programs: Vec<(String, Vec<u8>, &'static str)> = vec![];
     let nq: [TypeQualifier; 4] = [
@@ -984,6 +1083,7 @@ fn main() {
         "X# = 10000000000.0#\nFOR I% = 1 TO 30\nX# = X# * 10000000000.0#\nNEXT\nY! = X#\n",
         "X# = 10000000000.0#\nFOR I% = 1 TO 4\nX# = X# * 10000000000.0#\nNEXT\nY! = X#\n",
         "X! = 1.0\nY! = X! / .0000000001 / .0000000001 / .0000000001 / .0000000001\n",
+        "D# = 1000000000000000.0#\nD# = D# * D#\nE# = D# / 1\nZ! = 10000000000.0\nZ! = Z! * Z!\nY! = Z! / 1\nL& = 7\nE# = D# / L&\n",
         "X! = 2147483648\nA& = X!\n",
         "X! = -2147483648\nA& = X!\n",
         "FUNCTION F%(X%)\n F% = X% + 1\nEND FUNCTION\nA% = F%(32767)\n",
@@ -1061,6 +1161,37 @@ fn main() {
         }
         if i == 0 || i == programs.len() - 1 {
             rep.sample(J::s(format!("{} => {}", text, o.result)));
+        }
+    }
+    // 3f. printed form: x / 1, (x * 2) / 2 print what x prints (whole numbers built by multiplication)
+    for (decl, init) in [
+        ("D#", "D# = 1000000000000000.0#\nD# = D# * D#\n"),
+        ("D#", "D# = 1099511627776.0#\nD# = D# * D# * 1024.0#\n"),
+        ("D#", "D# = 3000000000.0#\nD# = D# * D#\n"),
+        ("Z!", "Z! = 10000000000.0\nZ! = Z! * Z! * Z!\n"),
+        ("Z!", "Z! = 4294967296.0\nZ! = Z! * Z!\n"),
+        ("D#", "D# = 3000000000.0#\n"),
+        ("Z!", "Z! = 65536.0\n"),
+    ] {
+        let text = format!("{i}PRINT {v}\nPRINT {v} / 1\nPRINT ({v} * 2) / 2\nQ# = {v} / 1\nPRINT Q#\nR# = {v}\nPRINT R#\n", i = init, v = decl);
+        rep.case(Some(format!("prog:{}", text)));
+        rep.bump("program.print-whole-quotient");
+        let o = run_observed(&text, b"");
+        let lines: Vec<String> = match o.result.strip_prefix("ok stdout=") {
+            Some(out) => out.trim_matches('"').split("\\r\\n").map(|l| l.trim().to_owned()).filter(|l| !l.is_empty()).collect(),
+            None => vec![],
+        };
+        // x, x / 1 and (x * 2) / 2 print the same; x / 1 stored in a DOUBLE prints what x stored in a DOUBLE prints
+        let all_equal = lines.len() == 5 && lines[1] == lines[0] && lines[2] == lines[0] && lines[3] == lines[4];
+        if !all_equal || !o.violations.is_empty() {
+            rep.fail(Failure {
+                kind: Kind::ImplVsProperty,
+                signature: format!("program:print-whole-quotient:{}", if decl == "D#" { "dbl" } else { "sgl" }),
+                input: text.clone(),
+                implementation: format!("{} {}", o.result, o.violations.join("; ")),
+                expected: "lines 1-3 equal (x, x / 1, (x * 2) / 2) and line 4 = line 5 (x / 1 and x, each stored in a DOUBLE)".into(),
+                note: "a whole quotient keeps its value".into(),
+            });
         }
     }
     rep.notes.push(format!(
